@@ -1347,3 +1347,99 @@ func c11r15(c *Ctx, r *Report) {
 	}
 	r.floor("variables the item builders keep across records", len(als), 3)
 }
+
+// c19r7: the walk callback appends the separator to an entry it treats as a directory (a real directory or,
+// with follow, a symlink to one) and later decides whether to list the entry from `isDir`. The two must
+// agree: on every path on which the separator was appended, the value tested by the listing decision is
+// true (D33: isDir was de.IsDir() only, so a followed symlink to a directory got the separator but was listed
+// as a FILE: --walker=file,follow listed `link/`, --walker=dir,follow did not).
+func c19r7(c *Ctx, r *Report) {
+	l := c.L
+	r.rule("C19-R7", "A (the marker and the classification agree on every path)", "P1",
+		"in the walk callback of Reader.readFiles, on every path through the block that appends the path separator, the IsDir-derived value tested before the push is true",
+		"with follow, symlinked directories are listed among the files (with a trailing separator) and are missing from the directories")
+	rf := l.Fn("fzf", "(*Reader).readFiles")
+	if rf == nil {
+		r.unest("anchors", token.NoPos, nil, "anchor Reader.readFiles", "cannot resolve")
+		return
+	}
+	n := 0
+	for _, f := range withClosures(rf) {
+		if f == rf {
+			continue
+		}
+		// the push: a call through the Reader.pusher field
+		var push *ssa.Call
+		eachInstr(f, func(in ssa.Instruction) {
+			if call, ok := in.(*ssa.Call); ok && !call.Common().IsInvoke() {
+				if fld, _ := loadedField(call.Common().Value); fld != nil && fld.Name() == "pusher" {
+					push = call
+				}
+			}
+		})
+		if push == nil {
+			continue
+		}
+		// separator appends: string concatenations whose result flows into the pushed value
+		var appends []*ssa.BinOp
+		pushed := backwardSlice(push.Call.Args[0], func(*ssa.CallCommon) bool { return true }, nil)
+		eachInstr(f, func(in ssa.Instruction) {
+			if bo, ok := in.(*ssa.BinOp); ok && bo.Op == token.ADD && pushed[bo] {
+				if bt, ok := bo.Type().Underlying().(*types.Basic); ok && bt.Kind() == types.String {
+					appends = append(appends, bo)
+				}
+			}
+		})
+		// the classification values: conditions on the way to the push that derive from DirEntry.IsDir
+		pc := pathConds(f)
+		isDirVals := map[ssa.Value]bool{}
+		for _, dj := range pc.At(push.Block()) {
+			for _, lt := range dj {
+				for w := range backwardSlice(lt.Atom, nil, nil) {
+					if call, ok := w.(*ssa.Call); ok && call.Common().IsInvoke() && call.Common().Method.Name() == "IsDir" {
+						isDirVals[lt.Atom] = true
+					}
+				}
+			}
+		}
+		if len(appends) == 0 || len(isDirVals) == 0 {
+			r.unest(relName(f)+":separator and classification", f.Pos(), f, "the separator append and the IsDir-derived condition of the push", "cannot find them")
+			continue
+		}
+		for i, ap := range appends {
+			for x := range isDirVals {
+				n++
+				trueAt := func(v ssa.Value) bool {
+					if k, ok := v.(*ssa.Const); ok && k.Value != nil && k.Value.String() == "true" {
+						return true
+					}
+					holds, reach := pc.Implies(ap.Block(), func(lits []Lit) bool {
+						return hasLit(lits, func(a ssa.Value, val bool) bool { return a == v && val })
+					})
+					return holds && reach
+				}
+				ok := true
+				if phi, isPhi := x.(*ssa.Phi); isPhi {
+					through := 0
+					for ei, e := range phi.Edges {
+						if !ap.Block().Dominates(phi.Block().Preds[ei]) {
+							continue
+						}
+						through++
+						if !trueAt(e) {
+							ok = false
+						}
+					}
+					if through == 0 {
+						ok = trueAt(x)
+					}
+				} else {
+					ok = trueAt(x)
+				}
+				r.check(ok, fmt.Sprintf("%s:separator append #%d implies the directory classification", relName(rf), i+1), ap.Pos(), f,
+					"an entry that got the separator is classified as a directory", "the separator is appended on a path on which the value tested by the listing decision is false: the entry is marked as a directory but listed as a file")
+			}
+		}
+	}
+	r.floor("separator appends checked against the classification", n, 1)
+}
